@@ -18,7 +18,7 @@ THEOREMS = ["C03_string_quote", "C03_escape3_lex", "C03_block_print", "C03_block
             "C03_exec_roundtrip", "C03_exec_idempotent", "C03_roundtrip_exec_closed",
             "C03_idempotent_exec_closed", "C03_roundtrip_value_closed", "C03_roundtrip_type_closed",
             "C03_sdl_roundtrip", "C03_roundtrip_document_closed", "C03_idempotent_document_closed",
-            "C03_roundtrip_document_total", "C03_forget_fixed", "C03_roundtrip_iff", "C03_idempotent_total", "C03_reparse_stable",
+            "C03_roundtrip_document_total", "C03_forget_fixed", "C03_roundtrip_int_indent", "C03_roundtrip_iff", "C03_idempotent_total", "C03_reparse_stable",
             "C03_block_specs_agree", "C03_descriptions_refuted",
             "C03_roundtrip_full_refuted"]
 AXIOMS_OK = []
